@@ -485,6 +485,19 @@ UNEXPORTED_TYPE = {
 }
 
 
+# two different types that print alike (struct{ x int } written in two packages): each keeps its own supplier (repaired)
+PRINT_ALIKE = {
+    "sub/sub.go": 'package sub\n\ntype R struct{ V int }\n\nfunc NewS() struct{ x int }     { return struct{ x int }{5} }\nfunc UseS(s struct{ x int }) *R { return &R{s.x} }\n',
+    "k.go": 'package main\n\nimport (\n\t"fmt"\n\n\t"github.com/mazrean/kessoku"\n\t"vscratch/print_alike/sub"\n)\n\ntype Q struct{ v int }\ntype F struct{ s string }\n\nfunc UseT(t struct{ x int }) *Q { return &Q{t.x} }\nfunc NewF(q *Q, r *sub.R) *F    { return &F{fmt.Sprint(q.v, r.V)} }\n\nvar _ = kessoku.Inject[*F]("InitF", kessoku.Provide(sub.NewS), kessoku.Provide(sub.UseS), kessoku.Provide(UseT), kessoku.Provide(NewF))\n\nfunc main() {\n\tif f := InitF(struct{ x int }{7}); f.s != "7 5" {\n\t\tpanic("wrong result " + f.s)\n\t}\n}\n',
+}
+# the file being processed renames an import that another file of the package imports under its own name; a copied literal
+# uses that own name for a local (repaired: the processed file's names come first)
+ALIAS_CAPTURE2 = {
+    "a.go": 'package main\n\nimport "strings"\n\nvar _ = strings.ToUpper\n',
+    "k.go": ALIAS_CAPTURE["k.go"],
+}
+
+
 def write_pkg(mod, name, files):
     d = os.path.join(mod, name)
     os.makedirs(d, exist_ok=True)
@@ -563,6 +576,8 @@ def _stage(seed, tier, key="N-x"):
                                                                                  expect_funcs={"k_band.go": ["InitA", "InitB"]})))
     pkgs.append(("bind_nothing", BIND_NOTHING, ["k.go"], None, dict(kind="a Bind that binds nothing", expect_not_generated=["InitApp"])))
     pkgs.append(("injector_names", INJECTOR_NAMES, ["k.go"], None, dict(kind="naming: injector names against generated imports and variables", run=True)))
+    pkgs.append(("print_alike", PRINT_ALIKE, ["k.go"], None, dict(kind="types that print alike", run=True, expect_params={"k_band.go": {"InitF": ["struct { x int }"]}})))
+    pkgs.append(("alias_capture2", ALIAS_CAPTURE2, ["k.go"], None, dict(kind="naming: a renamed import, another file importing it plainly, and a local of a copied literal", run=True)))
     pkgs.append(("xset", XSET, ["k.go"], "KF-C10-1", dict(kind="known finding reproducer (Set of another package)", signature="no vet signature: the file compiles",
                                                        expect_params={"k_band.go": {"InitB": []}}, known_params={"k_band.go": {"InitB": ["*prov.A"]}})))
     pkgs.append(("known_KF_C04_24", UNEXPORTED_TYPE, ["k.go"], "KF-C04-24", dict(kind="known finding reproducer", signature=r"(not exported by package lib|cannot refer to unexported|unexported)")))
